@@ -4,17 +4,22 @@ for i in range(1, 21):
     NOT_APPLICABLE["C%02d" % i] = PENDING
 
 EXTRA = {
- "C01": " Also: every key press/release and every axis report (whatever its raw value) reaches its handler under the event mutex (paths of processEvent under representative type/value assumptions), every received event is handed to processEvent, and the holder table is one fresh zeroed note table per channel.",
+ "C16": " The MIDI-input fan-out keeps delivery and removal in one critical section (R16.7).",
+ "C11": " A rejected name rejects the configuration (R11.6).",
+ "C09": " Nothing in the load chain writes package-level state (R9.10): a load is a function of the files.",
+ "C04": " Defaults.* are computed from exactly the defaults.* fields of the file (R4.8b, imported field-source rule); every action key press reaches the key handler (R4.9).",
+ "C03": " The transport relay rules are imported as R3.6 (the per-mode emission must arrive as emitted).",
+ "C01": " Also: every key press/release and every axis report (whatever its raw value) reaches its handler under the event mutex (paths of processEvent under representative type/value assumptions), every received event is handed to processEvent, and the holder table is one fresh zeroed note table per channel. The transport rules (relays forward every message exactly once, unaltered; R15.1/R15.2/R15.5) are imported as R1.9.",
  "C02": " Also: the holder table that decides whether the pinned Note Off is sent is a fresh note table per channel (never shared between channels).",
  "C06": " Also: the Bidirectional flag that selects the transfer function is derived by the parser from the presence of the negative field, and the position compared with the deadzone is the un-flipped one (flip applies after the deadzone).",
- "C08": " Also: every axis report reaches the key-emulation switch whatever its raw value (dispatch of processEvent).",
+ "C08": " Also: every axis report reaches the key-emulation switch whatever its raw value (dispatch of processEvent). Only the analog note functions write the trackers (R8.8).",
  "C10": " Also: no failed conversion in the parser region can reach a success return (except a fallback that re-validates the same operand), and event codes come only from a table hit or a full-string strconv parse. The parser is analysed as a region (ParseData plus the config-package helpers it calls), so splitting it into helpers changes nothing.",
- "C12": " Also: every failure in the parse chain (decoder, conversions, file read) is returned, so a file that fails to parse can never be registered.",
- "C13": " Also: the channel the burst is addressed to (used unmasked) is within 0..15: every store to Device.channel preserves it and the parser establishes defaults.channel in 1..16.",
- "C15": " Also: a relay that parks a received message in a variable and writes it from a later select iteration must have its receive case gated.",
+ "C12": " Also: every failure in the parse chain (decoder, conversions, file read) is returned, so a file that fails to parse can never be registered. A file is registered only with the configuration ParseData accepted for it (R12.6).",
+ "C13": " Also: the channel the burst is addressed to (used unmasked) is within 0..15: every store to Device.channel preserves it and the parser establishes defaults.channel in 1..16. Every message of the burst is a fresh 3-byte value (R13.6) and reaches the port once, unaltered (R13.7).",
+ "C15": " Also: a relay that parks a received message in a variable and writes it from a later select iteration must have its receive case gated. Constructors return fresh values (R15.6): the transport queues references.",
  "C17": " R17.1 is decided on the paths of one iteration of the MIDI-input loop under representative (type, velocity) assumptions, and the map written must be re-read from the Device field inside the critical section (Panic replaces it). R17.7 decides the layer precedence of the painted frame (unavailable < pitch-class < channel colour < external(current channel); pitch-class < active; all before UpdateLEDs) from the order of the classified LED write sites in the refresh loop body.",
  "C18": " Also: every file of the shipped hidi-config tree is matched by a //go:embed pattern of the template (go/packages EmbedFiles vs the source tree).",
- "C19": " The consumer is decided on paths: every path that takes the change-notification case cancels the per-cycle context before waiting again or returning.",
+ "C19": " The consumer is decided on paths: every path that takes the change-notification case cancels the per-cycle context before waiting again or returning. The loader only reads (R19.6): it never creates directories the watcher could not have been watching.",
  "C20": " Also: nothing reachable from grouping/classification reads package-level state that the program modifies (caches, counters).",
 }
 
